@@ -297,7 +297,8 @@ def r5_helpers(ctx):
     f = repo.func(RQ, 'explicit_path')
     NL, SRC, DST, NET = f.params[:4]
     ok = False
-    collect = [{'V_po': nm} for nm, _, _ in bound_by(f.node, f"[V_e.oms for V_e in {NL} if hasattr(V_e, 'oms')]")]
+    collect = [{'V_po': nm} for nm, _, _ in bound_by(f.node, f"[V_e.oms for V_e in {NL} if hasattr(V_e, 'oms')]")] or \
+        [{'V_po': nm} for nm, _, _ in bound_by(f.node, f"unique_ordered([V_e.oms for V_e in {NL} if hasattr(V_e, 'oms')])")]
     if len(collect) == 1:
         po = collect[0]['V_po']
         from ..pattern import bound_by_if
@@ -314,17 +315,36 @@ def r5_helpers(ctx):
             first = [b for n in walk_no_nested(f.node) for b in [mstmt(f'V_o0 = {po}[0]', n)] if b]
             pairs = [b for n in walk_no_nested(f.node) if isinstance(n, ast.For) for b in [mstmt(
                 f'for V_a, V_o in zip({po}, {po}[1:]):\n    if not is_adjacent(V_a, V_o):\n        return None\n    V_p.extend(V_o.el_list)', n)] if b]
-            ok = ok and (len(first) == 1 or len(pairs) == 1)
+            # third form: adjacency of all consecutive pairs tested in one all(..), the path then built over every OMS
+            allpairs = [n for n in walk_no_nested(f.node) if isinstance(n, ast.Call) and getattr(n.func, 'id', '') == 'all' and n.args and
+                        mexpr(f'(is_adjacent(V_a, V_o) for V_a, V_o in zip({po}, {po}[1:]))', n.args[0]) is not None]
+            whole = [b for n in walk_no_nested(f.node) if isinstance(n, ast.For) for b in [mstmt(
+                f'for V_o in {po}:\n    V_p.extend(V_o.el_list)', n)] if b]
+            if len(allpairs) == 1 and len(whole) == 1 and not first and not pairs:
+                lp_node = next(n for n in walk_no_nested(f.node) if isinstance(n, ast.For) and mstmt(
+                    f'for V_o in {po}:\n    V_p.extend(V_o.el_list)', n) is not None)
+                guarded = any(c.startswith('all(') and 'is_adjacent' in c for c in holds_at(lp_node))
+                pinit = [b for n in walk_no_nested(f.node) for b in [mstmt(f'V_p = [{SRC}]', n)] if b]
+                ok3 = guarded and len(pinit) == 1 and pinit[0]['V_p'] == whole[0]['V_p'] and \
+                    any(mstmt(f"{whole[0]['V_p']}.append({DST})", n) is not None for n in walk_no_nested(f.node))
+                rets3 = [n for n in walk_no_nested(f.node) if isinstance(n, ast.Return) and
+                         not (isinstance(n.value, ast.Constant) and n.value.value is None) and n.value is not None]
+                ok = ok and ok3 and len(rets3) == 1 and ast.unparse(rets3[0].value) in (f"unique_ordered({whole[0]['V_p']})", whole[0]['V_p'])
+                pth = lp = None
+                third = True
+            else:
+                third = False
+            ok = ok and (third or len(first) == 1 or len(pairs) == 1)
             if ok and len(pairs) == 1 and not first:
                 # the adjacency walk written over consecutive pairs
                 pth = [b for n in walk_no_nested(f.node) for b in [mstmt(f'V_p = [{SRC}] + {po}[0].el_list', n)] if b]
                 lp = pairs
-            elif ok:
+            elif ok and not third:
                 o0 = first[0]['V_o0']
                 pth = [b for n in walk_no_nested(f.node) for b in [mstmt(f'V_p = [{SRC}] + {o0}.el_list', n)] if b]
                 lp = [b for n in walk_no_nested(f.node) if isinstance(n, ast.For) for b in [mstmt(
                     f'for V_o in {po}[1:]:\n    if not is_adjacent({o0}, V_o):\n        return None\n    {o0} = V_o\n    V_p.extend(V_o.el_list)', n)] if b]
-            if ok:
+            if ok and not third:
                 ok = len(pth) == 1 and len(lp) == 1 and lp[0]['V_p'] == pth[0]['V_p'] and \
                     any(mstmt(f"{pth[0]['V_p']}.append({DST})", n) is not None for n in walk_no_nested(f.node))
                 rets = [n for n in walk_no_nested(f.node) if isinstance(n, ast.Return) and
